@@ -127,6 +127,14 @@ def _pdfh():
 def generate(rng, tier):
     n = 60 if tier == "quick" else 1500
     docs = [([], None), ([], {})] + [gen_doc(rng) for _ in range(n)]
+    # documents larger than 64 KiB and larger than 16 MiB/256: offsets need 3 bytes in the xref stream (field widths)
+    for k in range(2 if tier == "quick" else 12):
+        pages, info = gen_doc(rng)
+        while len(pages) < 3:
+            pages.append({"mb": [0, 0, 612, 792], "cb": None, "tb": None, "rot": 0, "ops": "", "other": {}})
+        for p in pages[:3]:
+            p["ops"] = "".join(rng.choice(OPS) for _ in range(rng.choice([12000, 20000, 35000])))
+        docs.append((pages, info))
     lines = []
     for pages, info in docs:
         f = [b"u", b"\n".join(page_line(p) for p in pages), info_text(info)]
